@@ -22,8 +22,14 @@ from vlib import *
 
 UNK = 888888
 LITERAL_VALS = {b"false": 9001, b"0": 9002, b"no": 9003, b"FALSE": 9004, b"1": 9005, b"bootstrapped": 9006}
-CTL = ("FORK", "LAGSTART", "CATCHUP")      # control ops: not commands, not queries
-KEYNAMES = {"deployment-id": 1, "launched-flag": 2, "bootstrapped-flag": 3, "election-key": 4, "regions-key": 5}
+CTL = ("FORK", "LAGSTART", "CATCHUP", "KEEPSNAP", "REVIVE")      # control ops: not commands, not queries
+#   ('KEEPSNAP',) ... ('REVIVE',): A's snapshot is kept at KEEPSNAP; at REVIVE it is handed to RecoverFromSnapshot of replica B, which
+#   applied every op so far - generated only after the launch-deadline fail-stop: a fail-stopped replica must refuse the restore and
+#   stay dead (no FORK / CATCHUP between the two: they would replace the kept snapshot)
+KEYNAMES = {"deployment-id": 1, "launched-flag": 2, "bootstrapped-flag": 3, "election-key": 4, "regions-key": 5,
+            # images of the ordinary keys k9 / k7 under common textual encodings and their neighbours (see the Go executor)
+            'hex:6b39': 9101, '0x6b39': 9102, 'azk=': 9103, '%6b9': 9104, '\\u006b9': 9105, '"k9"': 9106, 'K9': 9107, 'k9 ': 9108, 'k09': 9109, 'hex:6b37': 9110, 'k9\\': 9111, 'ké9': 9112}
+ODD_KEYS = [k for k in KEYNAMES.values() if k >= 9100]
 
 
 def sid(prefix, s):
@@ -235,6 +241,11 @@ def dump_states_pj(js):
 
 
 def key_of_bytes(b):
+    try:
+        if b.decode("utf-8") in KEYNAMES:
+            return KEYNAMES[b.decode("utf-8")]
+    except UnicodeDecodeError:
+        pass
     s = b.decode("latin1")
     if s in KEYNAMES:
         return KEYNAMES[s]
@@ -307,6 +318,16 @@ class Engine:
                         lagging = False
                         live.append(("L", lag_rid))
                     continue
+                if op[0] == "KEEPSNAP":
+                    if with_replicas:
+                        lines.append("SNAP %d" % base)
+                        meta.append((ti, oi, "lagsnap"))
+                    continue
+                if op[0] == "REVIVE":
+                    if with_replicas:
+                        lines.append("RESTI %d %d" % (base + 1, base))
+                        meta.append((ti, oi, "revive"))
+                    continue
                 if op[0] == "FORK":
                     if not with_replicas:
                         continue
@@ -331,7 +352,7 @@ class Engine:
         for l in outl[1:]:
             n, rest = l.split(" ", 1)
             byline[int(n)] = rest
-        results = [dict(obs={}, div=[], forkfail=[]) for _ in traces]
+        results = [dict(obs={}, div=[], forkfail=[], revive=[]) for _ in traces]
         for ln, m in enumerate(meta, start=1):
             rest = byline.get(ln, "missing")
             if m[0] == "reg":
@@ -340,6 +361,9 @@ class Engine:
             if m[0] is None:
                 continue
             ti, oi, nm = m
+            if nm == "revive":
+                results[ti]["revive"].append((oi, rest))
+                continue
             if nm in ("forksnap", "forkrest", "lagsnap", "lagrest"):
                 if not rest.startswith("ok"):
                     results[ti]["forkfail"].append((oi, "forksnap" if nm.endswith("snap") else "forkrest", rest))
@@ -483,6 +507,19 @@ class Engine:
             for ff in results[ti]["forkfail"]:
                 if ff[0] not in badforks:
                     out.append((ti, ff[0], ff[1], "fork", ff[2]))
+            # a restore handed to a replica that has fail-stopped must be refused, and the replica stays dead
+            for (ro, rest) in results[ti].get("revive", []):
+                before = [A[k] for k in sorted(A) if k < ro]
+                if not before or not before[-1].startswith("panic"):
+                    continue                     # primary not fail-stopped at that point: nothing to judge
+                B = obs.get("B", {})
+                if not rest.startswith("panic"):
+                    out.append((ti, ro, "B", "fail-stopped: every further call must be refused", "RecoverFromSnapshot on the fail-stopped replica answered " + rest[:100]))
+                    continue
+                for k in sorted(B):
+                    if k > ro and not B[k].startswith("panic"):
+                        out.append((ti, k, "B", "panic", B[k][:300] + " (after a refused RecoverFromSnapshot on the fail-stopped replica)"))
+                        break
         return out
 
 
